@@ -88,7 +88,11 @@ def oracle(sc, o):
                 return bad
             for a in strong:
                 if a["a"] == "pause" and a.get("defer"):
-                    if state == "running":
+                    if state == "running" and e == "ckpt":
+                        # the engine sits in the grace sleep of a checkpoint: an earlier deferred request is still pending
+                        # (e.g. one that a suspension overtook) and fires at THIS checkpoint; the new request adds nothing
+                        STATS["not-judged:deferred-request-during-a-grace-sleep"] += 1
+                    elif state == "running":
                         arm(f"action@{i}")
                 elif a["a"] == "pause":
                     if state == "running":
